@@ -5,19 +5,19 @@ import ast
 import itertools
 
 from ..core import Run, AnalysisError, dotted, norm
-from ..alg import T, num, var, op, normalize, same, C
+from ..alg import T, num, var, op, fun, normalize, same, substitute, C
 from ..pyreader import PyReader, Raised, _Return
 from ..dim import World
 from ..flow import Fn, node_calls, conditions_for, stmt_of
 
 EXPLANATION = (
-    "Q1 solve_for_vector refuses a non-vector expression with TypeError before splitting it and a missing unknown with ValueError "
-    "before building the result (dominance on the CFG); an Eq input becomes lhs - rhs; Q2 apply wraps both sides of the equation "
-    "with the same function and keeps the sides; Q3 the rearrangement formula is decided in a finite-sum abstraction: the tail "
-    "of solve_for_vector is evaluated abstractly for every length N = 1..4 of the linear combination and every position of the "
-    "unknown, with generic vectors and generic scalar coefficients, and the returned equation satisfies lhs - rhs = expr / scale "
-    "(factor reduction on) and lhs - rhs = -expr (off) exactly - so the returned equation is equivalent to the original for all "
-    "coefficients; Q4 solve_for_scalar pairs each solved symbol with its own solution and never switches off "
+    "solve_for_vector is evaluated abstractly AS A WHOLE (sa/pyreader.py; the input is a list of (vector, coefficient) terms - what "
+    "into_terms / split_factor are assumed to deliver - helpers living in the vectors module are followed): Q1 a non-vector expression "
+    "and an unknown that is not a term end in a raise; Q3 for every length N = 1..4 of the linear combination and every position of the "
+    "unknown, for a vector occurring in several terms ((x + y)*a - b), and for Eq inputs with vectors on both sides, with generic "
+    "vectors and coefficients, the returned equation satisfies lhs - rhs = expr / scale (factor reduction on; scale = the coefficient of "
+    "a term of the unknown) and lhs - rhs = -expr (off) exactly - so it is equivalent to the input for all coefficients; Q2 apply wraps "
+    "both sides of the equation with the same function and keeps the sides; Q4 solve_for_scalar pairs each solved symbol with its own solution and never switches off "
     "SymPy's verification of candidate solutions; Q5 is_vector_expr refuses a product of two or more vectors (no early `return True` inside the loop over the factors). Not decided: SymPy's solver, "
     "vector_equals (runs simplify), and the term splitting helpers.")
 ASSUMPTIONS = ["into_terms / split_factor return the (vector, coefficient) decomposition of the expression (C14's undecided part)",
@@ -28,102 +28,17 @@ MOD = "symplyphysics.core.experimental.solvers"
 
 
 def check(run: Run) -> None:
-    run.rule("Q1", "non-vector input -> TypeError before splitting; unknown not among the terms -> ValueError before the result; Eq input -> lhs - rhs")
+    run.rule("Q1", "a non-vector input and an unknown that is not among the terms are refused (an exception, no equation)")
     run.rule("Q2", "apply wraps both sides with the same function")
-    run.rule("Q3", "returned equation satisfies lhs - rhs = expr/scale (reduce_factor) or -expr, for every length and position of the unknown")
+    run.rule("Q3", "solve_for_vector evaluated as a whole: the returned equation satisfies lhs - rhs = expr/scale (reduce_factor) or -expr, for every length and "
+             "position of the unknown, for vectors occurring in several terms, and for Eq inputs (lhs - rhs)")
     run.rule("Q4", "solve_for_scalar returns Eq(symbol, its solution) for every solved symbol and never disables SymPy's verification of solutions")
     run.rule("Q5", "is_vector_expr refuses a product of two or more vectors (so solve_for_vector refuses it)")
     w = World(run.src)
     mod = run.src.need(MOD)
     f = Fn(w, MOD, "solve_for_vector")
-    # ---- Q1
-    type_tests = [n for n in f.cfg.stmt_nodes() if n.kind == "test" and isinstance(n.ast, ast.If) and isinstance(n.ast.test, ast.UnaryOp) and isinstance(n.ast.test.op, ast.Not)
-                  and isinstance(n.ast.test.operand, ast.Call) and dotted(n.ast.test.operand.func) == "is_vector_expr" and [dotted(a) for a in n.ast.test.operand.args] == ["expr"]
-                  and len(n.ast.body) == 1 and isinstance(n.ast.body[0], ast.Raise) and dotted(getattr(n.ast.body[0].exc, "func", n.ast.body[0].exc)) == "TypeError"]
-    none_tests = [n for n in f.cfg.stmt_nodes() if n.kind == "test" and isinstance(n.ast, ast.If) and isinstance(n.ast.test, ast.Compare) and isinstance(n.ast.test.ops[0], ast.Is)
-                  and isinstance(n.ast.test.comparators[0], ast.Constant) and n.ast.test.comparators[0].value is None
-                  and len(n.ast.body) == 1 and isinstance(n.ast.body[0], ast.Raise) and dotted(getattr(n.ast.body[0].exc, "func", n.ast.body[0].exc)) == "ValueError"]
-    splits = [n for n in f.cfg.stmt_nodes() for c in node_calls(n) if dotted(c.func) in ("into_terms", "split_factor")]
-    run.require(bool(splits), "solve_for_vector no longer splits the expression into terms")
-    for n in splits:
-        run.ob("Q1", "type-refusal-before-split")
-        if not f.cfg.dominated_by(n, lambda y: y in type_tests):
-            run.violate("Q1", f"{MOD}:solve_for_vector:type-refusal", f.mod, n.ast, "the expression is split into terms without `if not is_vector_expr(expr): raise TypeError` having passed")
-    idx_var = None
-    for t in none_tests:
-        idx_var = dotted(t.ast.test.left)
-    for r in f.cfg.returns():
-        run.ob("Q1", "missing-unknown-refusal")
-        if not f.cfg.dominated_by(r, lambda y: y in none_tests):
-            run.violate("Q1", f"{MOD}:solve_for_vector:missing-unknown:{norm(r.ast, 40)}", f.mod, r.ast, "a result can be returned although the requested vector is not a term of the expression (no `raise ValueError`)")
-    # Eq -> lhs - rhs
-    run.ob("Q1", "eq-to-difference")
-    ok = False
-    for n in f.cfg.stmt_nodes():
-        a = n.ast
-        if isinstance(a, ast.Assign) and dotted(a.targets[0]) == "expr" and isinstance(a.value, ast.BinOp) and isinstance(a.value.op, ast.Sub) \
-                and dotted(a.value.left) == "expr.lhs" and dotted(a.value.right) == "expr.rhs":
-            conds = conditions_for(f.fn, a) or []
-            if len(conds) == 1 and isinstance(conds[0][0], ast.Call) and dotted(conds[0][0].func) == "isinstance" and conds[0][1] is True:
-                ok = True
-    if not ok:
-        run.violate("Q1", f"{MOD}:solve_for_vector:eq-input", f.mod, f.fn, "an Eq input is not turned into lhs - rhs")
-    # the search loop binds the index of the term whose vector equals the unknown
-    run.ob("Q1", "search-loop")
-    ok = False
-    for lp in [n for n in f.cfg.stmt_nodes() if n.kind == "for"]:
-        it, tg = lp.ast.iter, lp.ast.target
-        if isinstance(it, ast.Call) and dotted(it.func) == "enumerate" and [dotted(a) for a in it.args] == ["combination"] and isinstance(tg, ast.Tuple) and len(tg.elts) == 2 \
-                and isinstance(tg.elts[0], ast.Name) and isinstance(tg.elts[1], ast.Tuple) and isinstance(tg.elts[1].elts[0], ast.Name):
-            j, v = tg.elts[0].id, tg.elts[1].elts[0].id
-            for s in lp.ast.body:
-                if isinstance(s, ast.If) and isinstance(s.test, ast.Call) and dotted(s.test.func) == "vector_equals" and sorted(dotted(a) or "" for a in s.test.args) == sorted([v, "atomic"]):
-                    if any(isinstance(x, ast.Assign) and dotted(x.targets[0]) == idx_var and dotted(x.value) == j for x in s.body):
-                        ok = True
-    if not ok:
-        run.violate("Q1", f"{MOD}:solve_for_vector:search", f.mod, f.fn, "the index of the unknown is not the position of the term whose vector equals `atomic`")
-    # ---- Q3: evaluate the tail abstractly
-    body = f.fn.body
-    start = None
-    for k, s in enumerate(body):
-        if isinstance(s, ast.If) and any(s is t.ast for t in none_tests):
-            start = k + 1
-    if start is None or idx_var is None:
-        if any(fd.rule == "Q1" for fd in run.findings):
-            run.skip("Q3", f"{f.mod.rel}:{f.fn.lineno}", "the missing-unknown refusal (reported under Q1) delimits the formula tail; not found")
-            start = len(body)
-        else:
-            raise AnalysisError("C16: the tail of solve_for_vector (after the missing-unknown refusal) was not found")
-    tail = body[start:]
-    R = PyReader(mod.tree, where="solve_for_vector tail")
-    for N in (range(1, 8 if run.tier == "thorough" else 5) if tail else ()):
-        for i in range(N):
-            for reduce_factor in (True, False):
-                vs = [var(f"v{k}") for k in range(N)]
-                ss = [var(f"s{k}") for k in range(N)]
-                env = {"combination": [[vs[k], ss[k]] for k in range(N)], idx_var: i, "atomic": vs[i], "reduce_factor": reduce_factor}
-                run.ob("Q3", f"N={N},i={i},reduce={reduce_factor}")
-                try:
-                    R.block(tail, env, {})
-                    res = None
-                except _Return as r:
-                    res = r.value
-                except Raised as r:
-                    res = r
-                if not (isinstance(res, tuple) and res and res[0] == "eq"):
-                    run.violate("Q3", f"{MOD}:solve_for_vector:result:N={N},i={i},reduce={reduce_factor}", f.mod, f.fn, f"no equation is returned (got {res!r})")
-                    continue
-                expr = num(0)
-                for k in range(N):
-                    expr = op("add", expr, op("mul", vs[k], ss[k]))
-                diff = normalize(op("sub", res[1], res[2]))
-                want = normalize(op("div", expr, ss[i])) if reduce_factor else normalize(op("neg", expr))
-                if not same(diff, want):
-                    run.violate("Q3", f"{MOD}:solve_for_vector:formula:reduce={reduce_factor}", f.mod, f.fn,
-                                f"with {N} term(s), unknown at position {i}, reduce_factor={reduce_factor}: lhs - rhs = {diff!r}, but equivalence requires {want!r}",
-                                N=N, position=i)
-                if N == 3 and i == 1:
-                    run.sample({"terms": N, "unknown_at": i, "reduce_factor": reduce_factor, "lhs": repr(normalize(res[1])), "rhs": repr(normalize(res[2]))})
+    # ---- Q1 / Q3: solve_for_vector evaluated as a whole (whatever the shape of its code)
+    _solve_for_vector(run, mod, f)
     # ---- Q2
     a = Fn(w, MOD, "apply")
     for r in a.cfg.returns():
@@ -182,3 +97,229 @@ def check(run: Run) -> None:
         run.violate("Q5", "symplyphysics.core.experimental.vectors:is_vector_expr:product", vm, ive,
                     "is_vector_expr no longer counts the vector factors of a product over all its arguments and raises for two or more: a*b*x passes as a vector expression "
                     "and solve_for_vector rearranges it")
+
+
+class _VE:
+    """a vector expression seen as a list of (vector, scalar coefficient) terms - what into_terms / split_factor return"""
+
+    def __init__(self, terms: list):
+        self.terms = list(terms)
+
+
+class _VEq:
+
+    def __init__(self, lhs: _VE, rhs: _VE):
+        self.lhs, self.rhs = lhs, rhs
+
+
+def _addends(t: T) -> list:
+    if t.op == "add":
+        return _addends(t.args[0]) + _addends(t.args[1])
+    if t.op == "sub":
+        return _addends(t.args[0]) + [op("neg", x) for x in _addends(t.args[1])]
+    if t.op == "num" and t.val == 0:
+        return []
+    return [t]
+
+
+def _factors(t: T) -> list:
+    if t.op == "mul":
+        return _factors(t.args[0]) + _factors(t.args[1])
+    if t.op == "neg":
+        return [num(-1)] + _factors(t.args[0])
+    if t.op == "div":
+        return _factors(t.args[0]) + [op("div", num(1), t.args[1])]
+    return [t]
+
+
+def _is_vec(t) -> bool:
+    return isinstance(t, T) and t.op == "var" and str(t.val).startswith("v")
+
+
+def _mentions(t, x: T) -> bool:
+    if not isinstance(t, T):
+        return False
+    if t == x:
+        return True
+    if t.op == "fun":
+        return x.op == "var" and x.val in t.val[1]
+    return any(_mentions(a, x) for a in t.args)
+
+
+def _terms_of(t: T) -> list:
+    """(vector, coefficient) pairs of a term that is a sum of products with exactly one vector factor each"""
+    out = []
+    for addend in _addends(t):
+        fs = _factors(addend)
+        vs = [f_ for f_ in fs if _is_vec(f_)]
+        if len(vs) != 1:
+            return []
+        c = num(1)
+        for f_ in fs:
+            if f_ is not vs[0] and not (_is_vec(f_) and f_ == vs[0] and False):
+                if f_ == vs[0] and _is_vec(f_):
+                    continue
+                c = op("mul", c, f_)
+        out.append((vs[0], c))
+    return out
+
+
+def _solve_for_vector(run: Run, mod, f) -> None:
+    vm = run.src.need("symplyphysics.core.experimental.vectors")
+    vfuncs = {x.name: x for x in vm.tree.body if isinstance(x, ast.FunctionDef)}
+
+    class R(PyReader):
+
+        def hook_attr(self, base, attr, n):
+            if isinstance(base, _VEq) and attr in ("lhs", "rhs"):
+                return getattr(base, attr)
+            return NotImplemented
+
+        def hook_method(self, base, attr, args, kwargs, n):
+            if attr == "coeff" and isinstance(base, T) and args and isinstance(args[0], T):
+                # sympy Expr.coeff(x, n) over the top-level sum: n = 1 -> cofactors of the addends that have x as a factor;
+                # n = 0 -> the addends in which x does not occur AT ALL (not even inside a coefficient)
+                order = args[1] if len(args) > 1 else 1
+                x = args[0]
+                acc = num(0)
+                for addend in _addends(base):
+                    fs = _factors(addend)
+                    if order == 0:
+                        if not _mentions(addend, x):
+                            acc = op("add", acc, addend)
+                    elif order == 1 and sum(1 for f_ in fs if f_ == x) == 1:
+                        rest = num(1)
+                        for f_ in fs:
+                            if f_ != x:
+                                rest = op("mul", rest, f_)
+                        acc = op("add", acc, rest)
+                return acc
+            return NotImplemented
+
+        def hook_binop(self, o, l, r, n):
+            if isinstance(l, _VE) and isinstance(r, _VE) and isinstance(o, (ast.Sub, ast.Add)):
+                return _VE(l.terms + [(v, op("neg", c) if isinstance(o, ast.Sub) else c) for v, c in r.terms])
+            if isinstance(l, _VE) or isinstance(r, _VE):
+                self.fail(n, "arithmetic on the input expression other than lhs - rhs")
+            return NotImplemented
+
+        def hook_call(self, n, env, fns):
+            name = dotted(n.func) or ""
+            if name == "isinstance" and len(n.args) == 2 and dotted(n.args[1]) in ("Eq", "Equality", "Relational"):
+                return isinstance(self.ev(n.args[0], env, fns), _VEq)
+            if name == "is_vector_expr" and len(n.args) == 1:
+                v = self.ev(n.args[0], env, fns)
+                return isinstance(v, _VE) or (isinstance(v, T) and bool(_terms_of(v)))
+            if name == "into_terms" and len(n.args) == 1:
+                v = self.ev(n.args[0], env, fns)
+                if isinstance(v, T):
+                    v = _VE(_terms_of(v))
+                if not isinstance(v, _VE):
+                    raise Raised("ValueError", getattr(n, "lineno", 0))  # _check_vector
+                return [op("mul", b, a) for a, b in v.terms]
+            if name == "split_factor" and len(n.args) == 1:
+                v = self.ev(n.args[0], env, fns)
+                if isinstance(v, T):
+                    tt = _terms_of(v)
+                    if len(tt) == 1:
+                        return [tt[0][0], tt[0][1]]
+                    if len(tt) > 1:
+                        return [v, num(1)]  # a sum is returned unchanged with factor 1
+                    raise Raised("ValueError", getattr(n, "lineno", 0))  # not a vector expression
+                self.fail(n, "split_factor of something that is not a term")
+            if name == "vector_equals" and len(n.args) == 2:
+                a, b = self.ev(n.args[0], env, fns), self.ev(n.args[1], env, fns)
+                return isinstance(a, T) and isinstance(b, T) and a == b
+            if isinstance(n.func, ast.Name) and name not in self.functions and name not in fns and name in vfuncs:
+                # a helper that lives in the vectors module: evaluated there, with the same primitives
+                sub = R(vm.tree, "vectors/__init__.py")
+                args = [self.ev(a, env, fns) for a in n.args]
+                return sub.call(name, args, {k.arg: self.ev(k.value, env, fns) for k in n.keywords if k.arg})
+            return NotImplemented
+
+    def total(terms):
+        acc = num(0)
+        for v, c in terms:
+            acc = op("add", acc, op("mul", v, c))
+        return acc
+
+    def run_case(label, expr_obj, terms, atomic, reduce_factor):
+        rd = R(mod.tree, "solve_for_vector")
+        try:
+            res = rd.call("solve_for_vector", [expr_obj, atomic, reduce_factor])
+        except Raised as r:
+            res = r
+        return res
+
+    top = 8 if run.tier == "thorough" else 5
+    cases = []
+    for N in range(1, top):
+        for i in range(N):
+            terms = [(var(f"v{k}"), var(f"s{k}")) for k in range(N)]
+            cases.append((f"N={N},i={i}", _VE(terms), terms, var(f"v{i}")))
+    # the unknown (and another vector) occurring in several terms, e.g. (x + y)*a - b
+    rep = [(var("v0"), var("s0")), (var("v1"), var("s1")), (var("v0"), var("s2")), (var("v1"), var("s3"))]
+    cases.append(("repeated-vector,unknown=v0", _VE(rep), rep, var("v0")))
+    cases.append(("repeated-vector,unknown=v1", _VE(rep), rep, var("v1")))
+    # an equation as input: vectors on both sides
+    lhs, rhs = [(var("v0"), var("s0")), (var("v1"), var("s1"))], [(var("v0"), var("s2")), (var("v2"), var("s3"))]
+    eq_terms = lhs + [(v, op("neg", c)) for v, c in rhs]
+    cases.append(("Eq-input,unknown=v0", _VEq(_VE(lhs), _VE(rhs)), eq_terms, var("v0")))
+    cases.append(("Eq-input,unknown=v2", _VEq(_VE(lhs), _VE(rhs)), eq_terms, var("v2")))
+    # a coefficient that depends on the unknown (x*a + b*dot(a, c) + c solved for a): only the term whose VECTOR is the unknown moves
+    dep = [(var("v0"), var("s0")), (var("v1"), fun("g", ("v0", ))), (var("v2"), var("s2"))]
+    cases.append(("coefficient-mentions-unknown,unknown=v0", _VE(dep), dep, var("v0")))
+    for label, obj, terms, atomic in cases:
+        for reduce_factor in (True, False):
+            run.ob("Q3", f"{label},reduce={reduce_factor}")
+            res = run_case(label, obj, terms, atomic, reduce_factor)
+            if not (isinstance(res, tuple) and res and res[0] == "eq"):
+                run.violate("Q3", f"{MOD}:solve_for_vector:result:{label},reduce={reduce_factor}", f.mod, f.fn,
+                            f"{label}: no equation is returned ({'raises ' + res.exc if isinstance(res, Raised) else repr(res)[:80]})")
+                continue
+            diff = normalize(op("sub", res[1], res[2]))
+            expr = total(terms)
+            if reduce_factor:
+                wants = [normalize(op("div", expr, c)) for v, c in terms if v == atomic]
+            else:
+                wants = [normalize(op("neg", expr))]
+            if not any(same(diff, w_) for w_ in wants):
+                run.violate("Q3", f"{MOD}:solve_for_vector:formula:{'repeated' if 'repeated' in label else ('eq' if 'Eq' in label else 'plain')}:reduce={reduce_factor}", f.mod, f.fn,
+                            f"{label}, reduce_factor={reduce_factor}: lhs - rhs = {diff!r}; equivalence with the input requires {wants[0]!r}"
+                            + (" (a term of the input was dropped or counted twice)" if "repeated" in label or "Eq" in label else ""))
+            elif label == "N=3,i=1":
+                run.sample({"case": label, "reduce_factor": reduce_factor, "lhs": repr(normalize(res[1])), "rhs": repr(normalize(res[2]))})
+    # a request for a multiple of a term's vector (-a, 2*a) is outside the stated domain: it may be refused, or answered by ANY equivalent equation
+    terms = [(var("v0"), var("s0")), (var("v1"), var("s1"))]
+    for what, atomic in (("-v0", op("neg", var("v0"))), ("2*v0", op("mul", num(2), var("v0")))):
+        for reduce_factor in (True, False):
+            run.ob("Q3", f"scaled-unknown {what},reduce={reduce_factor}")
+            res = run_case("scaled", _VE(terms), terms, atomic, reduce_factor)
+            if isinstance(res, Raised):
+                continue
+            ok = isinstance(res, tuple) and res and res[0] == "eq"
+            if ok:
+                d = op("sub", res[1], res[2])
+                coefs = []
+                for v, c in terms:
+                    env = {str(u.val): num(1 if u == v else 0) for u, _ in terms}
+                    coefs.append((normalize(substitute(d, env)), normalize(c)))
+                lam = coefs[0][0] / coefs[0][1]
+                ok = not lam.is_zero() and all(same(cd, lam * ce) for cd, ce in coefs)
+            if not ok:
+                run.violate("Q3", f"{MOD}:solve_for_vector:scaled-unknown:reduce={reduce_factor}", f.mod, f.fn,
+                            f"asked for {what} in s0*v0 + s1*v1 (reduce_factor={reduce_factor}) the function neither refuses nor returns an equivalent equation: "
+                            f"{normalize(res[1])!r} = {normalize(res[2])!r}" if isinstance(res, tuple) else f"unexpected result {res!r}")
+    # refusals
+    terms = [(var("v0"), var("s0")), (var("v1"), var("s1"))]
+    for reduce_factor in (True, False):
+        run.ob("Q1", f"missing-unknown-refused,reduce={reduce_factor}")
+        res = run_case("missing", _VE(terms), terms, var("v7"), reduce_factor)
+        if not isinstance(res, Raised):
+            run.violate("Q1", f"{MOD}:solve_for_vector:missing-unknown", f.mod, f.fn,
+                        f"asking for a vector that is not a term of the expression is not refused (got {'raises ' + res.exc if isinstance(res, Raised) else repr(res)[:80]})")
+        run.ob("Q1", f"non-vector-refused,reduce={reduce_factor}")
+        res = run_case("non-vector", var("s0"), [], var("v0"), reduce_factor)
+        if not isinstance(res, Raised):
+            run.violate("Q1", f"{MOD}:solve_for_vector:type-refusal", f.mod, f.fn,
+                        f"a non-vector expression is not refused (got {'raises ' + res.exc if isinstance(res, Raised) else repr(res)[:80]})")
